@@ -238,3 +238,30 @@ def r7(c):
     a = P.adt(CL)
     ty = {f['name']: f['ty'] for v in a['variants'] for f in v['fields']}
     c.ob('tx_id/field', ty.get('tx_id', '').endswith('TxId'), 'ClientLoop owns the TxId counter', ty.get('tx_id', ''))
+
+
+@rule('C11', 'R11.8', 'submission order: the command intake hands out exactly what tokio\'s FIFO queue yields, one for one, and keeps nothing aside')
+def r8(c):
+    P = c.P
+    R = 'rodbus::channel::Receiver'
+    a = P.adt(R)
+    fl = [f for v in a['variants'] for f in v['fields']]
+    c.ob('intake/no-side-buffer', len(fl) == 1 and norm(fl[0]['ty']).startswith('tokio::sync::mpsc::bounded::Receiver<'), 'channel::Receiver wraps the tokio receiver and nothing else (no place where commands could wait out of order)', str([f['ty'] for f in fl]))
+    r = P.fn(R + '::recv')
+    c.saw(r, len(r.calls()))
+    inner = r.calls('tokio::sync::mpsc::bounded::Receiver::recv')
+    ok = len(inner) == 1 and not r.in_cycle(inner[0].node)
+    det = '%d inner recv' % len(inner)
+    if ok:
+        for x in q.exits(r):
+            if x['kind'] == 'call' and x['cs'].is_('core::option::Option::ok_or', 'core::option::Option::ok_or_else'):
+                ok = ok and q.is_result_of(r, x['cs'].args[0], 'tokio::sync::mpsc::bounded::Receiver::recv')
+            elif x['kind'] == 'agg' and x['variant'] == 'Ok':
+                s = q.sem(r, x['rv']['a'][0])
+                ok = ok and s.kind == 'call' and s.cs is inner[0] and ':Some' in ''.join(s.proj)
+            elif x['kind'] == 'agg' and x['variant'] == 'Err':
+                ok = ok and q.dominated_by_any(r, q.outcomes(r, inner[0]).get('None', []), x['node'])
+            else:
+                ok = False
+                det += '; exit %s' % x['kind']
+    c.ob('intake/one-for-one', ok, 'channel::Receiver::recv awaits the queue once and returns that very item (Err(Shutdown) only when the queue is closed)', det, loc_of(r))
